@@ -59,6 +59,7 @@ type hubBehaviour struct {
 	N      int       `json:"n"`       // history length
 	SyncMs int       `json:"sync_ms"` // deadline of the progress probe
 	Ext    bool      `json:"ext"`     // stored/deleted events enter through the extension host's after-events
+	Burst  bool      `json:"burst"`   // with ext: events are announced back to back without waiting for the hub; nothing is compared until "release"
 	Steps  []hubStep `json:"steps"`
 }
 
@@ -154,6 +155,9 @@ type hubRun struct {
 	panics   *panicCounter
 	lastPan  int64
 	witness  *hubWitness
+	burst    bool // a burst is under way: comparison is deferred (reported like a held hub)
+	emitted  int  // burst: after-events announced through the extension host
+	handed   int  // burst: broadcasts the witness has seen
 }
 
 func (r *hubRun) startSync() chan struct{} {
@@ -280,7 +284,10 @@ func runHubBehaviour(w *tr.Writer, b hubBehaviour, pc *panicCounter) {
 			default:
 				r.hub.Delete(s.Mb, s.ID)
 			}
-			if b.Ext {
+			if b.Ext && b.Burst {
+				r.burst = true
+				r.emitted++
+			} else if b.Ext {
 				r.awaitHandOver(entered)
 			}
 		case "join":
@@ -314,9 +321,31 @@ func runHubBehaviour(w *tr.Writer, b hubBehaviour, pc *panicCounter) {
 		case "disconnect":
 			ev["slot"] = s.Slot
 			if l := r.real[s.Slot]; l != nil {
+				if r.burst {
+					// let the hand-over get as far as it gets (the hub may be waiting for this listener's full buffer)
+					for quiet := 0; quiet < 5; {
+						select {
+						case <-r.witness.ch:
+							r.handed++
+							quiet = 0
+						case <-time.After(10 * time.Millisecond):
+							quiet++
+						}
+					}
+				}
 				ev["qbefore"] = l.Queued()
-				l.Close() // the socket reader's deferred Close
-				l.Close() // the socket writer's deferred Close
+				closed := make(chan struct{})
+				go func() {
+					l.Close() // the socket reader's deferred Close
+					l.Close() // the socket writer's deferred Close
+					close(closed)
+				}()
+				select {
+				case <-closed:
+					ev["closed_ok"] = true
+				case <-time.After(r.deadline):
+					ev["closed_ok"] = false // Close() itself does not return: the socket's goroutines hang with it
+				}
 			}
 		case "take":
 			ev["slot"] = s.Slot
@@ -327,6 +356,21 @@ func runHubBehaviour(w *tr.Writer, b hubBehaviour, pc *panicCounter) {
 			}
 			ev["taken"] = tk
 		case "release":
+			if r.burst {
+				// the burst ends: every announced event must reach the hub (the witness sees each broadcast) before the probe is queued
+				limit := time.After(r.deadline)
+			wait:
+				for r.handed < r.emitted {
+					select {
+					case <-r.witness.ch:
+						r.handed++
+					case <-limit:
+						break wait
+					}
+				}
+				ev["handed"], ev["emitted"] = r.handed, r.emitted
+				r.burst = false
+			}
 			if r.held != nil {
 				close(r.held)
 				r.held, r.heldMock = nil, nil
@@ -334,7 +378,7 @@ func runHubBehaviour(w *tr.Writer, b hubBehaviour, pc *panicCounter) {
 		}
 		// progress probe
 		switch {
-		case r.held != nil:
+		case r.held != nil || r.burst:
 			ev["sync"] = "held"
 		default:
 			res := r.probe(entered)
@@ -345,7 +389,7 @@ func runHubBehaviour(w *tr.Writer, b hubBehaviour, pc *panicCounter) {
 				armedMock.disarm()
 			}
 		}
-		ev["held"] = r.held != nil
+		ev["held"] = r.held != nil || r.burst
 		ev["q"] = r.queued()
 		ev["calls"] = r.newCalls()
 		p := atomic.LoadInt64(&pc.n)
